@@ -98,12 +98,12 @@ def run_model(run, tier):
     def one(job):
         mech, n, c, invs, props, expect = job
         big = mech == 'PerCall'
-        res = tlc.run_tlc('Stateless', mc_cfg(mech, n, c, invs, props), workers=4 if big else 1,
-                          timeout=3000, heap='4g' if big else '1g')
+        res = tlc.run_tlc('Stateless', mc_cfg(mech, n, c, invs, props), workers=TLC_WORKERS if big else 1,
+                          timeout=6000, heap='4g' if big else '1g')
         return job, res
 
     results = []
-    with ThreadPoolExecutor(max_workers=4) as ex:
+    with ThreadPoolExecutor(max_workers=max(1, TLC_WORKERS // 2)) as ex:
         for job, res in ex.map(one, jobs):
             mech, n, c, invs, props, expect = job
             what = 'Stateless %s threads=%d calls=%d %s' % (mech, n, c, ' '.join(invs + props))
@@ -140,7 +140,7 @@ def typegen_modules(run, tg, seed):
     into modules; their boundary values become the valid inputs of the operation tables."""
     num, depth, per_mod, nmods = tg
     out, res = pl.tlc_generate(run, 'TypeGen', cc.typegen_cfg(depth, True, ['E', 'A', 'I'], extra_inv=False),
-                               'typegen.ndjson', workers=2, simulate='num=%d' % num, depth=depth + 1,
+                               'typegen.ndjson', workers=2, simulate='num=%d' % num, depth=depth + 1, timeout=6000,
                                what='TypeGen simulate num=%d depth %d (random types for C18)' % (num, depth))
     cases = [c for c in pl.dedup_cases(out, 't') if c.get('depth', 0) >= 2 and c['vals']]
     # deepest (most nested / recursive / sharing) first, deterministic
@@ -193,11 +193,11 @@ def pipeline_from_tables(run, mods, max_ops):
 # tier -> (fixed module variants, TypeGen (num, depth, types per module, modules), schedules per TLC worker,
 #          operations per table, run the mechanism model)
 TIERS = {
-    'dev':      (['A'], None, 12, 100, False),                 # development / mutant demonstrations
-    'quick':    (['A', 'E'], (60, 4, 8, 2), 80, 120, True),
-    'thorough': (['A', 'E', 'I'], (600, 5, 10, 14), 1500, 200, True),
+    'dev':      (['A'], None, 48, 100, False),                 # development / mutant demonstrations
+    'quick':    (['A', 'E'], (60, 4, 8, 2), 320, 120, True),
+    'thorough': (['A', 'E', 'I'], (150, 5, 10, 14), 6000, 200, True),
 }
-GEN_WORKERS = 4
+TLC_WORKERS = max(1, int(os.environ.get('VERIF_TLC_WORKERS', '4')))   # per TLC run of this check
 
 
 def c18(tier, seed):
@@ -211,12 +211,13 @@ def c18(tier, seed):
                 mods += typegen_modules(run, tg, seed)
             tables, usable, tpath = pipeline_from_tables(run, mods, max_ops)
             # -simulate num=N generates N behaviours per worker
-            out, res = pl.tlc_generate(run, 'Stateless', GEN_CFG, 'sched.ndjson', workers=GEN_WORKERS,
-                                       simulate='num=%d' % num, depth=110, env={'OPS_FILE': run.path('ops.json')},
-                                       what='Stateless Mech=Table simulate num=%dx%d (schedules)' % (num, GEN_WORKERS),
-                                       timeout=3000)
+            per_worker = (num + TLC_WORKERS - 1) // TLC_WORKERS
+            out, res = pl.tlc_generate(run, 'Stateless', GEN_CFG, 'sched.ndjson', workers=TLC_WORKERS,
+                                       simulate='num=%d' % per_worker, depth=110, env={'OPS_FILE': run.path('ops.json')},
+                                       what='Stateless Mech=Table simulate num=%dx%d (schedules)' % (per_worker, TLC_WORKERS),
+                                       timeout=6000)
             cases = pl.dedup_cases(out, 's')
-            if len(cases) < num:
+            if len(cases) < num // 2:
                 raise pl.Machinery('TLC generated only %d schedules' % len(cases))
             cpath = run.path('cases.ndjson')
             pl.write_cases(cases, cpath)
